@@ -250,6 +250,46 @@ def gen_retry_vn(batch, res):
         res.count("vn_grids_done")
 
 
+def check_header_at_offset(data, arg, res, rng, kind, k=None):
+    """A packet header that is not the first one of its datagram (coalesced packets): parsing it at offset k of a larger
+    buffer must give what parsing the same bytes on their own gives — same fields, same packet length, or the same
+    refusal — and an accepted packet must end inside the buffer."""
+    aq = AQ.get()
+
+    def run(buf):
+        try:
+            h = aq.packet.pull_quic_header(buf, host_cid_length=arg or 0)
+        except aq.DOC as exc:
+            return "rej", None
+        except Exception as exc:
+            return "exc:" + type(exc).__name__, None
+        return "ok", header_form_aq(h)
+
+    alone = run(aq.Buffer(data=data))
+    if k is None:
+        k = rng.choice((1, 2, 7, 19, 50, 300, 1200))
+    buf = aq.Buffer(data=bytes(k) + data)
+    buf.seek(k)
+    inside = run(buf)
+    res.count("header_offset_cases")
+    case = {"gen": "replay_header_offset", "hex": bytes(data).hex(), "arg": arg, "offset": k}
+    if inside[0] == "ok" and k + inside[1]["packet_length"] > k + len(data):
+        res.violation("codec:header:coalesced:packet-ends-past-the-datagram", "header parsed at offset %d declares packet_length %d, the datagram has %d bytes left (%s)" % (
+            k, inside[1]["packet_length"], len(data), kind), case, {"alone": repr(alone)[:600], "inside": repr(inside)[:600]})
+    if alone != inside:
+        res.violation("codec:header:coalesced:outcome-depends-on-position:%s-vs-%s" % (alone[0], inside[0]),
+                      "the same %d bytes parse differently on their own and at offset %d of a datagram (%s)" % (len(data), k, kind), case,
+                      {"alone": repr(alone)[:600], "inside": repr(inside)[:600]})
+    else:
+        res.count("header_offset_agree_" + alone[0].split(":")[0])
+    return alone[0]
+
+
+def gen_replay_header_offset(batch, res):
+    res.evaluations += 1
+    res.nontrivial.add("replay:" + check_header_at_offset(bytes.fromhex(batch["hex"]), batch.get("arg"), res, None, "replay", k=batch["offset"]))
+
+
 def gen_header_bytes(batch, res):
     """mutated valid headers / Retry / VN and arbitrary bytes into pull_quic_header"""
     rng = random.Random(batch["seed"])
@@ -278,6 +318,8 @@ def gen_header_bytes(batch, res):
         for kind, mut in mutate_cases(data, [], rng, nflips=16):
             res.evaluations += 1
             res.nontrivial.add("hdr:bytes:%s:%s" % (kind, check_bytes("header", mut, arg, res, kind)))
+            if rng.random() < 0.5:
+                check_header_at_offset(mut, arg, res, rng, kind)
     for _ in range(batch.get("nbytes", 0)):
         data = G.rbytes(rng, rng.choice((0, 1, 5, 7, 20, 48, 100)))
         if data and rng.random() < 0.5:
